@@ -106,25 +106,25 @@ func (b *Broadcaster[T]) Receive(channel string, ctx context.Context) (func() (*
 func (b *Broadcaster[T]) Free(channel string, err error) {
 	verifYield("free.enter", channel)
 	b.lock.Lock()
+	verifTrace("free.done", channel)
 	c, ok := b.channels[channel]
 	if ok {
 		c.cancel(err)
 		close(c.channel)
 	}
 	delete(b.channels, channel)
-	verifTrace("free.done", channel)
 	b.lock.Unlock()
 }
 
 func (b *Broadcaster[T]) Close(err error) {
 	verifYield("close.enter", "")
 	b.lock.Lock()
+	verifTrace("close.done", "")
 	for _, c := range b.channels {
 		c.cancel(err)
 		close(c.channel)
 	}
 	b.channels = map[string]channelWithContext[T]{}
 	b.closed = true
-	verifTrace("close.done", "")
 	b.lock.Unlock()
 }
